@@ -147,7 +147,7 @@ func init() {
 		ID: "C10", Engine: "client",
 		Generate: genC10, Decode: decodeClientSc, Execute: execC10,
 		Config: func(any) simrt.Config {
-			return simrt.Config{MaxSteps: 100000, IdleProbe: 5 * time.Second, ClockJumpPM: 15}
+			return simrt.Config{MaxSteps: 60000, IdleProbe: 5 * time.Second, ClockJumpPM: 15}
 		},
 		Runs: clientRuns(250000, 10000000),
 		Floors: []Floor{
